@@ -152,22 +152,23 @@ def run (args : List String) : Option String :=
       | .ok (p1, .error e) => pure s!"first: {fmtPost p1} second: {e.toStr}"
       | .ok (p1, .ok p2) => pure s!"first: {fmtPost p1} second: {fmtPost p2}"
     | _, _ => pure "EVAL-ERR"
-  | ["tokeq", minWrite, minPart, spillA, wpcA, finalA, treeA, spillB, wpcB, finalB, treeB] => do
-    -- do two sections (roots of two evaluations, same lhs_keep) get the same dask token?
-    let minWrite ← parseNat? minWrite; let minPart ← parseNat? minPart
-    let spillA ← parseNat? spillA; let wpcA ← parseNat? wpcA; let finalA ← parseBool? finalA
-    let spillB ← parseNat? spillB; let wpcB ← parseNat? wpcB; let finalB ← parseBool? finalB
+  | ["tokeq", minPart, minWriteA, spillA, wpcA, finalA, treeA, minWriteB, spillB, wpcB, finalB, treeB] => do
+    -- do two sections (roots of two evaluations; lhs_keep = the writer's min_write_sz of each) get the same dask token?
+    let minPart ← parseNat? minPart
+    let minWriteA ← parseNat? minWriteA; let spillA ← parseNat? spillA; let wpcA ← parseNat? wpcA; let finalA ← parseBool? finalA
+    let minWriteB ← parseNat? minWriteB; let spillB ← parseNat? spillB; let wpcB ← parseNat? wpcB; let finalB ← parseBool? finalB
     let (ta, _, _) ← parseTree1 treeA 0 0
     let (tb, _, _) ← parseTree1 treeB 0 0
-    let W : Writer := ⟨minWrite, minPart, minPart + 100000⟩
-    match eval ⟨some W, spillA, wpcA, finalA⟩ ta.leaves ta 0, eval ⟨some W, spillB, wpcB, finalB⟩ tb.leaves tb 0 with
+    let WA : Writer := ⟨minWriteA, minPart, minPart + 100000⟩
+    let WB : Writer := ⟨minWriteB, minPart, minPart + 100000⟩
+    match eval ⟨some WA, spillA, wpcA, finalA⟩ ta.leaves ta 0, eval ⟨some WB, spillB, wpcB, finalB⟩ tb.leaves tb 0 with
     | .ok (a, _), .ok (b, _) =>
       -- part receipts of the recording writer carry the part number only
       let strip := fun (c : Chunk Nat) => ({ c with parts := c.parts.map fun (p : Part Nat) => (⟨p.id, []⟩ : Part Nat) } : Chunk Nat)
-      let ta := (strip a).tokenAsFound
-      let tb := (strip b).tokenAsFound
-      pure (fmtBool (ta.1 == tb.1 && ta.2.1 == tb.2.1 && ta.2.2.1 == tb.2.2.1 && ta.2.2.2.1 == tb.2.2.2.1 &&
-        ta.2.2.2.2.1 == tb.2.2.2.2.1 && ta.2.2.2.2.2.1 == tb.2.2.2.2.2.1 && ta.2.2.2.2.2.2 == tb.2.2.2.2.2.2))
+      let ta := (strip a).token
+      let tb := (strip b).token
+      pure (fmtBool (ta.2 == tb.2 && ta.1.1 == tb.1.1 && ta.1.2.1 == tb.1.2.1 && ta.1.2.2.1 == tb.1.2.2.1 && ta.1.2.2.2.1 == tb.1.2.2.2.1 &&
+        ta.1.2.2.2.2.1 == tb.1.2.2.2.2.1 && ta.1.2.2.2.2.2.1 == tb.1.2.2.2.2.2.1 && ta.1.2.2.2.2.2.2 == tb.1.2.2.2.2.2.2))
     | _, _ => pure "EVAL-ERR"
   | ["shape", split, nparts] => do
     -- the merge tree `from_dask_bag(split_every=split)` per bag + collate builds for bags with these partition counts
